@@ -689,6 +689,14 @@ def class_specs(draw, field_types: st.SearchStrategy[t.Any], *, max_fields: int 
                 ity = draw(st.sampled_from([('s', 'str'), ('s', 'int'), ('s', 'float')]))
                 idata = {'str': 'K', 'int': 0, 'float': 0.5}[ity[1]]
                 fields.append({'name': nm, 'type': ity, 'init': False, 'exclude': True, 'default': ['value', idata]})
+    plain = [f for f in fields if f.get('init', True) and 'naming' not in f and 'out_name' not in f]
+    if naming and len(plain) >= 2 and aliases_left and draw(st.integers(0, 7)) == 7:
+        # one field takes the *python name of another field* as its configured name, while that other field is itself renamed away:
+        # every field still has exactly one configured name and they are all different
+        (i, j) = (draw(st.integers(0, len(plain) - 1)), draw(st.integers(0, len(plain) - 2)))
+        (fa, fb) = (plain[i], [f for f in plain if f is not plain[i]][j])
+        fa['naming'] = ['rename', fb['name']]
+        fb['naming'] = ['rename', aliases_left.pop(draw(st.integers(0, len(aliases_left) - 1)))]
     cs: t.Dict[str, t.Any] = {'fields': fields, 'opts': opts}
     if kwm is not None:
         # the marker sits in front of the kwm-th *drawn* field; inserted init=False fields shift its index
